@@ -88,10 +88,14 @@ CHECKS.update({
          "The real poll_chunks runs against the S3 simulator with a scripted uploader. Roots cross 30 start positions (volumes 1/500/997/998/999 x sequences 1/2/30/53/54/55) with stop signals before polling and while serving request #k, consumer drops after k deliveries, upload times around now, next-volume listings of 1-3 chunks, a long horizon and discovery faults; under each root ALL executions with <= 1 (quick) / 2-3 (thorough) deviations are enumerated, every post-discovery request being a choice point (present / 404 once / 500 once / garbled / never). Each execution is judged against the uploaded-object model: first delivery, successor relation incl. 999->1, no gap/repeat, byte-identical payloads and labels, <= 1 delivery after stop and Ok, Err exactly on budget exhaustion or consumer gone, no request outside {next chunk, next volume listing}; reachability obligations are enforced.",
          "simulator framing, tokio paused clock, schedule reduction argument (stop flag read at one point per iteration)", "DESIGN.md §5 C18", "E1/E4"),
  "C20": ("exploration",
-         "exhaustive enumeration of the feature powerset with cargo check as oracle",
-         "Features are derived from the four manifests; thorough checks every subset per crate (2^3, 2^2, 2^11 with verif-hooks, 2^3) plus default and --all-features, with examples whenever their required-features are on; quick checks the complete powersets of the small crates and for nexrad-data the named powerset, each optional dependency alone / on top of named features and every all-but-one set.",
-         "cargo check as build oracle; offline registry cache", "DESIGN.md §5 C20", "E5"),
+         "exhaustive enumeration of the feature powerset x build profile with cargo build (library) / cargo check (examples) as oracle",
+         "Features are derived from the four manifests; thorough covers every subset per crate (2^3, 2^2, 2^11 with verif-hooks, 2^3) plus default and --all-features, with examples whenever their required-features are on; quick covers the complete powersets of the small crates and for nexrad-data the named powerset, each optional dependency alone / on top of named features, every pair, every triple and every all-but-one set. Every set in both build profiles (dev and --release); the library is built (post-monomorphisation errors count), examples are type-checked, library and examples in separate invocations.",
+         "cargo build / cargo check as build oracle (opt-level 0 in both profiles); offline registry cache", "DESIGN.md §5 C20", "E5"),
 })
+
+ENV_NOTE = ("every enumeration is repeated under the process-environment dimensions the harness owns: log level passes (Trace, Debug[, Info, Warn, Error], Off), "
+            "TZ with DST, wall clock (clock_gettime defined by the harness binary; 1986 in the Trace pass, relative offsets where timestamps matter), odd-address byte buffers (Debug pass), "
+            "one-CPU threads, cross-API disturbances and operation histories on fresh threads, and in the applicable build configurations (dbg, bare, aws, x1, x2) whose failures are merged into the verdict")
 
 PENDING = {
 }
@@ -112,7 +116,7 @@ def main():
                 "replay_cmd_template": f"./check {pid} --replay {{path}}",
                 "engine": eng,
                 "level_claimed": {"category": level, "text": text, "design_ref": ref},
-                "level_note": note,
+                "level_note": note + ("" if pid == "C20" else "; " + ENV_NOTE),
                 "technique": tech,
             })
         else:
@@ -132,7 +136,7 @@ def main():
             {"name": "E2", "path": "/verif/harness/src/props", "serves_properties": ["C09", "C14", "C16", "C19"], "kind_free_text": "stateright explicit-state search whose invariant calls the real step function in every state"},
             {"name": "E3", "path": "/verif/harness/src/core.rs", "serves_properties": ["C01", "C02", "C03", "C04", "C05", "C06", "C07", "C08", "C10", "C11", "C12", "C13", "C15"], "kind_free_text": "bounded-exhaustive product enumeration of input shapes against reference encoders/models"},
             {"name": "E4", "path": "/verif/harness/src/s3sim.rs", "serves_properties": ["C15", "C17", "C18"], "kind_free_text": "loopback S3 simulator + tokio paused clock"},
-            {"name": "E5", "path": "/verif/harness/src/props/c20.rs", "serves_properties": ["C20"], "kind_free_text": "cargo check over the feature powerset"},
+            {"name": "E5", "path": "/verif/harness/src/props/c20.rs", "serves_properties": ["C20"], "kind_free_text": "cargo build / check over the feature powerset x {dev, release}"},
         ],
         "checks": checks,
         "not_applicable": na,
